@@ -2,7 +2,7 @@
 # Regenerates the cfg(kani) forks of regex / tracing / once_cell under /verif/models/_gen
 # from the cargo registry sources + the small diffs in models/patches (DESIGN 2.2).
 set -euo pipefail
-V=/verif
+V=$(cd "$(dirname "$0")/.." && pwd)
 G=$V/models/_gen
 REG=$(ls -d /root/.cargo/registry/src/*/ | head -1)
 stamp=$G/.stamp
